@@ -53,6 +53,12 @@ def load_module(pid: str):
 def _task(args: tuple) -> dict:
     pid, stream_name, n, seed, tier, shard, nshards = args
     _worker_init()
+    crash = os.environ.get("VERIF_SELFTEST_CRASH")  # self-test of the lost-worker path: "<stream>:<shard>:<marker file>" kills that shard's worker once
+    if crash:
+        cs, ci, marker = crash.split(":", 2)
+        if cs == stream_name and int(ci) == shard and not os.path.exists(marker):
+            open(marker, "w").close()
+            os._exit(13)
     t0 = time.monotonic()
     try:
         from .engine import run_stream
@@ -188,7 +194,18 @@ def main(argv: list[str] | None = None) -> int:
         futs = [ex.submit(_task, t) for t in tasks]
         try:
             for f, p in futs_c.items():
-                r = f.result(timeout=timeout)
+                try:
+                    r = f.result(timeout=timeout)
+                except cf.TimeoutError:
+                    raise
+                except Exception:  # noqa: BLE001 - pool broken by a dying worker: replay this file in a fresh single-worker pool
+                    with cf.ProcessPoolExecutor(max_workers=1, mp_context=ctx) as exr:
+                        data = json.loads(p.read_text())
+                        try:
+                            r = exr.submit(_replay_task, (pid, data.get("stream"), data["case"])).result(timeout=timeout)
+                        except Exception as e2:  # noqa: BLE001
+                            harness_errors.append(f"replay {p.name}: worker failed twice ({type(e2).__name__})")
+                            continue
                 corpus_runs += 1
                 if r["error"]:
                     harness_errors.append(f"replay {p.name}: {r['error']}")
@@ -202,8 +219,24 @@ def main(argv: list[str] | None = None) -> int:
                         print(f"  regression-corpus failure oracle={fl['oracle']} signature={fl['signature']}\n    {fl['message'][:800]}")
                         if rel not in violations:
                             violations.append(rel)
-            for f in futs:
-                results.append(f.result(timeout=max(1.0, timeout - (time.monotonic() - t0))))
+            retry: list[tuple] = []
+            for f, t_ in zip(futs, tasks):
+                try:
+                    results.append(f.result(timeout=max(1.0, timeout - (time.monotonic() - t0))))
+                except cf.TimeoutError:
+                    raise
+                except Exception as e:  # noqa: BLE001 - a worker process died (BrokenProcessPool) or the task could not be transferred
+                    retry.append((t_, f"{type(e).__name__}: {e}"))
+            if retry:
+                # every task is a pure function of its seed: run the lost shards once more in a fresh pool before giving up (exit 2, never a VIOLATION)
+                print(f"  note: {len(retry)} shard(s) lost their worker process ({retry[0][1][:120]}); re-running them in a fresh pool")
+                with cf.ProcessPoolExecutor(max_workers=min(NPROC, len(retry)), mp_context=ctx) as ex2:
+                    futs2 = [(ex2.submit(_task, t_), t_) for t_, _ in retry]
+                    for f2, t_ in futs2:
+                        try:
+                            results.append(f2.result(timeout=max(1.0, timeout - (time.monotonic() - t0))))
+                        except Exception as e:  # noqa: BLE001
+                            harness_errors.append(f"stream {t_[1]} shard {t_[5]}: worker failed twice ({type(e).__name__}: {str(e)[:200]})")
         except cf.TimeoutError:
             harness_errors.append(f"timeout after {timeout}s (inconclusive)")
             for f in futs:
@@ -344,4 +377,14 @@ def main(argv: list[str] | None = None) -> int:
 
 
 if __name__ == "__main__":
-    sys.exit(main())
+    try:
+        rc = main()
+    except SystemExit:
+        raise
+    except BaseException:  # noqa: BLE001 - an exception of the harness itself is never a verdict about the property
+        import traceback
+
+        traceback.print_exc()
+        print("HARNESS-ERROR: uncaught exception in the runner (see traceback above)")
+        rc = 2
+    sys.exit(rc)
